@@ -79,6 +79,7 @@ type FnTrans struct {
 	selStates  map[ssa.Value][]Val
 	masks      map[ssa.Value]uint64
 	modComps   map[string]bool
+	modByComp  map[string][]modTarget
 }
 
 func (tr *FnTrans) obName(class string, label string) string {
@@ -568,6 +569,7 @@ func (tr *FnTrans) run() {
 		ec := tr.specCtx(tr.cur, nil, nil)
 		for _, c := range tr.fc.Requires {
 			vc.fact(ec.evalBool(c.E), "requires "+c.Label)
+			tr.masksFromRequires(c.E, pnames)
 		}
 	}
 	tr.globalFacts()
@@ -578,11 +580,13 @@ func (tr *FnTrans) run() {
 		vc.fact(fmt.Sprintf("(forall ((i Int)) (! (=> (>= i %s) (= (select %s i) 0)) :pattern ((select %s i))))", tr.entryAlloc, h0, h0), "")
 	}
 	tr.modComps = map[string]bool{}
+	tr.modByComp = map[string][]modTarget{}
 	if tr.fc != nil && !tr.fc.ModAll {
 		ec := tr.specCtx(tr.entryHeap, tr.entryHeap, nil)
 		for _, m := range tr.fc.Modifies {
 			for _, t := range tr.modTargets(ec, m) {
 				tr.modComps[t.comp] = true
+				tr.modByComp[t.comp] = append(tr.modByComp[t.comp], t)
 			}
 		}
 	}
@@ -733,7 +737,7 @@ func (tr *FnTrans) loopHeader(li *loopInfo, phiEntry map[*ssa.Phi]Val) {
 	if !tr.scan && tr.fc != nil && !tr.fc.ModAll && tr.loopMods != nil {
 		for _, c := range tr.loopMods[b.Index] {
 			srt, ok := vc.compSort[c]
-			if !ok || c == compAlloc || c == "*" || strings.HasPrefix(c, "G$") || strings.HasPrefix(c, "V$") || strings.HasPrefix(c, "R$") || tr.modComps[c] {
+			if !ok || c == compAlloc || c == "*" || strings.HasPrefix(c, "G$") || strings.HasPrefix(c, "V$") || strings.HasPrefix(c, "R$") || strings.HasPrefix(c, "L$") || tr.wholeMod(c) {
 				continue
 			}
 			if !strings.HasPrefix(srt, "(Array Int ") {
@@ -806,9 +810,61 @@ func (tr *FnTrans) frameTerm(li *loopInfo, h *Heap) string {
 		if cur == ent {
 			continue
 		}
+		if len(tr.modByComp[c]) > 0 {
+			ps = append(ps, tr.frameFormula(c, cur, ent, tr.modByComp[c], true))
+			continue
+		}
 		ps = append(ps, fmt.Sprintf("(forall ((i Int)) (! (=> %s (= (select %s i) (select %s i))) :pattern ((select %s i))))", tr.vc.existedAt("i", tr.entryAlloc), cur, ent, cur))
 	}
 	return sAnd(ps...)
+}
+
+// wholeMod: the modifies clause names the whole component.
+func (tr *FnTrans) wholeMod(comp string) bool {
+	for _, t := range tr.modByComp[comp] {
+		if t.idx == "" && t.pred == nil {
+			return true
+		}
+	}
+	return false
+}
+
+// frameFormula: component comp (version f) differs from version ent only at
+// the declared targets ts, for objects that existed at function entry.
+func (tr *FnTrans) frameFormula(comp, f, ent string, ts []modTarget, withPattern bool) string {
+	vc := tr.vc
+	srt := vc.compSort[comp]
+	is, _ := splitArrSort(srt)
+	existed := "true"
+	if is == sortInt && !strings.HasPrefix(comp, "G$") && !strings.HasPrefix(comp, "V$") {
+		existed = vc.existedAt("i", tr.entryAlloc)
+	}
+	var allowed []string
+	var inner []string
+	for _, t := range ts {
+		if t.pred != nil {
+			allowed = append(allowed, t.pred("i"))
+		} else if t.twoLvl && t.lo != "" {
+			pj := ""
+			if withPattern {
+				pj = fmt.Sprintf(" :pattern ((select (select %s i) j))", f)
+			}
+			ib := fmt.Sprintf("(=> (not %s) (= (select (select %s i) j) (select (select %s i) j)))", tr.innerAllowed(ts, t.idx), f, ent)
+			if pj != "" {
+				ib = "(! " + ib + pj + ")"
+			}
+			inner = append(inner, fmt.Sprintf("(=> (= i %s) (forall ((j Int)) %s))", t.idx, ib))
+			allowed = append(allowed, sEq("i", t.idx))
+		} else {
+			allowed = append(allowed, sEq("i", t.idx))
+		}
+	}
+	body := sImp(sAnd(existed, sNot(sOr(allowed...))), sEq(sSel(f, "i"), sSel(ent, "i")))
+	all := sAnd(append([]string{body}, inner...)...)
+	if withPattern {
+		all = fmt.Sprintf("(! %s :pattern ((select %s i)))", all, f)
+	}
+	return fmt.Sprintf("(forall ((i %s)) %s)", is, all)
 }
 
 // loopCtx: evaluation context for invariants of loop li; override maps the
@@ -1230,7 +1286,7 @@ func (tr *FnTrans) frameCheck(fin *Heap, reach string) {
 	}
 	sort.Strings(comps)
 	for _, comp := range comps {
-		if comp == compAlloc || strings.HasPrefix(comp, "R$") {
+		if comp == compAlloc || strings.HasPrefix(comp, "R$") || strings.HasPrefix(comp, "L$") {
 			continue
 		}
 		ent := vc.hget(tr.entryHeap, comp)
@@ -1253,26 +1309,7 @@ func (tr *FnTrans) frameCheck(fin *Heap, reach string) {
 			vc.oblig(tr.name+"#frame:"+comp, "frame", sImp(reach, sEq(f, ent)), "frame: "+comp+" unchanged")
 			continue
 		}
-		is, es := splitArrSort(srt)
-		existed := "true"
-		if is == sortInt && !strings.HasPrefix(comp, "G$") && !strings.HasPrefix(comp, "V$") {
-			existed = vc.existedAt("i", tr.entryAlloc)
-		}
-		var allowed []string
-		var inner []string
-		for _, t := range ts {
-			if t.pred != nil {
-				allowed = append(allowed, t.pred("i"))
-			} else if t.twoLvl && t.lo != "" {
-				inner = append(inner, fmt.Sprintf("(=> (= i %s) (forall ((j Int)) (=> (not %s) (= (select (select %s i) j) (select (select %s i) j)))))", t.idx, tr.innerAllowed(ts, t.idx), f, ent))
-				allowed = append(allowed, sEq("i", t.idx))
-			} else {
-				allowed = append(allowed, sEq("i", t.idx))
-			}
-		}
-		_ = es
-		body := sImp(sAnd(existed, sNot(sOr(allowed...))), sEq(sSel(f, "i"), sSel(ent, "i")))
-		term := fmt.Sprintf("(forall ((i %s)) %s)", is, sAnd(append([]string{body}, inner...)...))
+		term := tr.frameFormula(comp, f, ent, ts, false)
 		vc.oblig(tr.name+"#frame:"+comp, "frame", sImp(reach, term), "frame: "+comp+" changes only at the declared locations")
 	}
 }
@@ -1292,4 +1329,45 @@ func (tr *FnTrans) innerAllowed(ts []modTarget, idx string) string {
 		}
 	}
 	return sOr(rs...)
+}
+
+// masksFromRequires: a conjunct `p <= C` of a precondition (p an unsigned
+// parameter, C a literal) bounds the bits that may be set in p; used only to
+// simplify the arithmetic expansion of bit operations (sound: the clause is
+// assumed anyway).
+func (tr *FnTrans) masksFromRequires(e Expr, pnames []string) {
+	b, ok := e.(*EBin)
+	if !ok {
+		return
+	}
+	if b.Op == "&&" {
+		tr.masksFromRequires(b.L, pnames)
+		tr.masksFromRequires(b.R, pnames)
+		return
+	}
+	if b.Op != "<=" {
+		return
+	}
+	id, ok1 := b.L.(*EIdent)
+	c, ok2 := b.R.(*EInt)
+	if !ok1 || !ok2 || !c.V.IsUint64() {
+		return
+	}
+	for i, p := range tr.fn.Params {
+		name := p.Name()
+		if pnames != nil && i < len(pnames) && pnames[i] != "" {
+			name = pnames[i]
+		}
+		if name != id.Name {
+			continue
+		}
+		if _, _, _, signed, ok := intRange(p.Type()); !ok || signed {
+			continue
+		}
+		m := uint64(1)
+		for m <= c.V.Uint64() && m != 0 {
+			m <<= 1
+		}
+		tr.setMask(p, m-1)
+	}
 }
